@@ -39,6 +39,7 @@ func init() {
 			m.RunNilField(s, "R-NILFIELD", fns)
 			m.RunPanicCall(s, "R-PANICCALL", fns)
 			m.RunNilObj(s, "R-NILOBJ", fns)
+			m.RunOkObj(s, "R-NILOBJ", fns) // the object of a (object, found) lookup is used only where it was found
 			m.RunTypedNil(s, "R-NILOBJ", fns)
 			m.RunNilRet(s, "R-NILRET", fns)
 		},
